@@ -314,7 +314,8 @@ def lines_family(name, seed=1):
         f'{m["transitions"]} transitions, depth {m["depth"]} ({"cached" if m["cached"] else str(m["wall_s"]) + "s"})')
     wd = workdir('cgt_' + name)
     out = os.path.join(wd, 'findings.ndjson')
-    s = harness('replay_lines', ['--in', m['out'], '--out', out, '--bases', '2' if name.endswith('_q') else '1'])
+    common.build_cli()
+    s = harness('replay_lines', ['--in', m['out'], '--out', out, '--bases', '2' if name.endswith('_q') else '1', '--cli', common.CGT_TOOL, '--cli-every', '23'])
     r = {'name': name, 'tlc': m, 'summary': s, 'findings': read_ndjson(out), 'obs': None}
     log(f'[replay] MC_Lines/{name}: {s["records"]} behaviours, {s["counters"].get("executions", 0)} executions, '
         f'{s["findings"]} deviations')
